@@ -26,6 +26,7 @@ Shapes == { Named("D_unit", "DOUBLE", 0), Named("D_neg", "DOUBLE", 0), Named("D_
             Named("D_f32hi", "DOUBLE", 0), Named("D_f32lo", "DOUBLE", 0),
             Named("I_small", "INTEGER", 6), Named("I_wide", "INTEGER", 41),
             Named("S_three", "DISCRETE", 3), Named("S_twelve", "DISCRETE", 12),
+            Named("S_decimal", "DISCRETE", 4),      \* 0.1, 0.2, 0.3, 0.7: not float32 numbers (a float32 code path must still return THEM)
             Named("C_three", "CATEGORICAL", 3), Named("C_single", "CATEGORICAL", 1), Named("B", "CATEGORICAL", 2) }
           \cup {[name |-> "D_class", type |-> "DOUBLE", m |-> 0, cls |-> c] : c \in DClasses}
           \cup {[name |-> "I_class", type |-> "INTEGER", m |-> 6, cls |-> c] : c \in {k \in IClasses : k.st = "LINEAR" \/ k.sign = "pos"}}
